@@ -149,6 +149,56 @@ def gen_cases(rng, tier):
     return cases
 
 
+def gen_convs(rng, tier):
+    """Conversations on ONE instance through the message-history API.  Consecutive turns carry
+    DIFFERENT options (and different supplied bot messages) or the SAME options (events-cache hit:
+    context variables of the previous turn are carried over), refusing turns come first in a third
+    of them.  Every turn is a row of the table, so the oracle and the (memoryless) model apply per turn."""
+    def tmpl(kind, t):
+        u, b = f"USER-TEXT-t{t}", f"BOT-TEXT-t{t}"
+        return {
+            "all": dict(opts=None, bot=None, with_options=True),
+            "plain": dict(opts=None, bot=None, with_options=False),
+            "log_only": dict(opts={}, bot=None, with_options=True),
+            "in": dict(opts=["input"], bot=None, with_options=True),
+            "io": dict(opts=["input", "output"], bot=b, with_options=True),
+            "o": dict(opts=["output"], bot=b, with_options=True),
+            "iro": dict(opts=["input", "retrieval", "output"], bot=b, with_options=True),
+            "do": dict(opts=["dialog", "output"], bot=None, with_options=True),
+            "id": dict(opts={"output": False, "retrieval": False}, bot=None, with_options=True),
+        }[kind] | {"user": u, "role": "assistant"}
+
+    kinds = ["all", "plain", "log_only", "in", "io", "o", "iro", "do", "id"]
+    verdicts = [("A", "A", "A"), ("R", "A", "A"), ("A", "R", "A")]     # (first turn in/out rail, ...) see below
+    convs = []
+    shapes = [(1, 1, 1, "flows"), (1, 1, 0, "general")] + ([(2, 2, 1, "flows_predef")] if tier == "thorough" else [])
+    for (ni, no, nr, dm) in shapes:
+        for k1 in kinds:
+            for k2 in kinds:
+                for vi, first in enumerate(("accept", "in_rejects", "out_rejects")):
+                    k3 = rng.choice(kinds)
+                    turns = []
+                    for t, k in enumerate((k1, k2, k3)):
+                        tr = tmpl(k, t)
+                        iv, ov = ["A"] * ni, ["A"] * no
+                        if t == 0 and first == "in_rejects" and ni:
+                            iv[-1] = "R"
+                        if t == 0 and first == "out_rejects" and no:
+                            ov[0] = "R"
+                        if t == 2 and rng.random() < 0.3:
+                            (iv if rng.random() < 0.5 or not no else ov)[0] = rng.choice("RW")
+                        tr["iv"], tr["ov"] = iv, ov
+                        turns.append(tr)
+                    convs.append({"n_in": ni, "n_out": no, "n_ret": nr, "dmode": dm, "turns": turns})
+                    # the same conversation carried by an explicit state object (options always given)
+                    if vi != 0 and "plain" not in (k1, k2, k3):
+                        convs.append({"n_in": ni, "n_out": no, "n_ret": nr, "dmode": dm, "turns": turns, "mode": "state"})
+    if os.environ.get("VERIF_SMALL"):
+        rng.shuffle(convs)
+        convs = convs[:120]
+    return convs
+
+
 # ---------------------------------------------------------------------------------------
 # Coq printing
 
@@ -300,12 +350,26 @@ def oracle(case, obs):
         if obs["llm"]:
             bad.append(("output-check-llm-call", "checking a supplied bot message made an LLM call"))
     else:
-        # generation rows: an output rail that rejects must block
+        # generation rows (dialog rails selected): the generated message is checked by the output rails iff
+        # `output` is selected (a predefined message is not generated and is not re-checked)
         for k, c in enumerate(out_calls):
             if case["ov"][k] == "R":
                 out_block = k
         if (in_block is not None or out_block is not None) and reply != D.REFUSAL:
             bad.append(("blocked-but-not-refused", f"a rail rejected but the reply is {reply!r}"))
+        if e["dialog"] and in_block is None:
+            if case["dmode"] == "flows_predef":
+                want, n_out = D.PREDEF_TEXT, 0
+            elif e["output"]:
+                t, blk, n_out = spec_rails(case["ov"][:case["n_out"]], "OUT", D.LLM_TEXT)
+                want = D.REFUSAL if blk is not None else t
+            else:
+                want, n_out = D.LLM_TEXT, 0
+            if [c[0] for c in out_calls] != [f"out_rail_{k}" for k in range(n_out)]:
+                bad.append(("output-rails-not-run-as-selected",
+                            f"generated message: expected {n_out} output rail calls in order, got {out_calls}"))
+            elif reply != want:
+                bad.append(("generation-reply", f"generated message: reply {reply!r}, expected {want!r}"))
     # the log
     if obs["rails"] is not None:
         rails = obs["rails"]
@@ -402,11 +466,15 @@ def run(tier, seed, replay=None):
         out.add_broken("coq:theories/Pipe/OptionsRun.v", logm)
 
     cases = []
+    convs = []
     genlog_extra = []
     corpus_n = 0
     for d in load_corpus():
         if d.get("kind") == "e2e":
             cases.append(d["case"])
+            corpus_n += 1
+        elif d.get("kind") == "conv":
+            convs.append(d["conv"])
             corpus_n += 1
         elif d.get("kind") == "genlog":
             genlog_extra.append(d["plog"])
@@ -416,26 +484,46 @@ def run(tier, seed, replay=None):
         r = d.get("replay", d)
         if r.get("kind") == "e2e":
             cases.append(r["case"])
+        elif r.get("kind") == "conv":
+            convs.append(r["conv"])
         elif r.get("kind") == "genlog":
             genlog_extra.append(r["plog"])
     else:
         cases += gen_cases(rng, tier)
+        convs += gen_convs(rng, tier)
     # same configuration adjacent: a worker process reuses its LLMRails instance
     cases.sort(key=lambda c: (c["n_in"], c["n_out"], c["n_ret"], c["dmode"]))
 
     # ---- end to end
     t0 = time.time()
     obs_all, errs = D.run_shards(PID + "_e2e", "c16", cases, nproc=C.NPROC, timeout=1500) if cases else ([], [])
-    for e in errs:
+    convs.sort(key=lambda c: (c["n_in"], c["n_out"], c["n_ret"], c["dmode"]))
+    conv_obs, errs2 = D.run_shards(PID + "_conv", "c16conv", convs, nproc=C.NPROC, timeout=1500) if convs else ([], [])
+    for e in errs + errs2:
         out.add_broken("correspondence:C16-e2e(driver)", e)
     tm["e2e_impl_s"] = round(time.time() - t0, 1)
+    # one item per generate call: (case, observation, replay payload)
+    items = [(c, o, {"kind": "e2e", "case": c}) for c, o in zip(cases, obs_all)]
+    n_conv_turns = 0
+    for conv, ol in zip(convs, conv_obs):
+        if ol is None:
+            continue
+        if isinstance(ol, dict) and "driver_error" in ol:
+            items.append(({**conv["turns"][0], **{k: conv[k] for k in ("n_in", "n_out", "n_ret", "dmode")}}, ol,
+                          {"kind": "conv", "conv": conv}))
+            continue
+        for t, o in enumerate(ol):
+            c = {**conv["turns"][t], **{k: conv[k] for k in ("n_in", "n_out", "n_ret", "dmode")}}
+            items.append((c, o, {"kind": "conv", "conv": conv, "turn": t}))
+            n_conv_turns += 1
     terms, kept = [], []
+    payload_of = {}
     seen = set()
     nontrivial = 0
     dist = {"in_table": 0, "out_of_table": 0, "blocked": 0, "rewritten": 0, "by_subset": {}, "forms": {"list": 0, "dict": 0, "absent": 0, "no_options": 0}}
     observations = {}
     real_logs = []
-    for case, obs in zip(cases, obs_all):
+    for case, obs, payload in items:
         if obs is None:
             continue
         if "driver_error" in obs:
@@ -469,7 +557,9 @@ def run(tier, seed, replay=None):
                 continue
         else:
             for sig, msg in oracle(case, obs):
-                out.findings.append(C.Finding(sig, msg, {"kind": "e2e", "case": case, "observed": {k: v for k, v in obs.items() if k != "plog"}}))
+                if payload["kind"] == "conv":
+                    sig, msg = sig + ":in-conversation", f"turn {payload['turn']} of a conversation on one instance: " + msg
+                out.findings.append(C.Finding(sig, msg, {**payload, "observed": {k: v for k, v in obs.items() if k != "plog"}}))
             if any(v == "R" for v in case["iv"] + case["ov"]):
                 dist["blocked"] += 1
             if any(v in ("W", "E") for v in case["iv"] + case["ov"]):
@@ -488,6 +578,7 @@ def run(tier, seed, replay=None):
                 nontrivial += 1
         terms.append(t)
         kept.append((case, obs))
+        payload_of[id(case)] = payload
 
     disagree = []
     t0 = time.time()
@@ -502,7 +593,7 @@ def run(tier, seed, replay=None):
         model = C.eval_term(PID + "_e2e", PREAMBLE,
                             f"let r := model_of {coq_case(case, obs)} in (answer r, calls r, llm r, ran r, blocked r)")
         out.add_broken("correspondence:C16-e2e",
-                       f"{len(disagree)} disagreements; smallest: case={json.dumps(case)} observed="
+                       f"{len(disagree)} disagreements; smallest: {json.dumps(payload_of.get(id(case), {}))[:1500]} case={json.dumps(case)} observed="
                        f"{json.dumps({k: v for k, v in obs.items() if k != 'plog'})} model={model[-1500:]}")
         # a disagreement is a candidate: store it for the corpus of the next runs
         out.notes.append({"disagreement_case": case})
@@ -556,6 +647,7 @@ def run(tier, seed, replay=None):
                 "genlog: distinct processing logs with >= 4 entries",
         "samples": [{"case": c, "reply": o.get("reply"), "calls": o["calls"], "rails": o.get("rails")} for c, o in kept[:3]],
         "input_distribution": {**dist, "corpus_cases": corpus_n, "genlog": gl_hist,
+                               "conversations": len(convs), "conversation_turns": n_conv_turns,
                                "shapes": "n_in,n_out,n_ret in 0..2 (3 in thorough) x {general, flows, flows_predef}"},
         "traces_validated_against_impl": len(terms),
         "correspondence_disagreements": len(disagree),
@@ -571,7 +663,9 @@ def run(tier, seed, replay=None):
         "timing fields, token statistics, return values and action parameters of the log are out of scope",
         "inputs outside the documented table (assistant-last transcript with dialog enabled; output enabled with dialog "
         "disabled and no supplied bot message) are excluded from C16_table and reported in coverage.out_of_table_observations",
-        "one generate call on a fresh LLMRails per case (single turn)",
+        "single generate calls (history cache emptied between cases) plus 3-turn conversations on one instance through the "
+        "message-history API with per-turn options; the model of a turn is memoryless, so every turn of a conversation "
+        "is compared with the same single-turn model and judged by the same table oracle",
     ]
     if tier == "thorough" and b["ok"]:
         ok, log = C.coqchk(PID, b["files"])
